@@ -147,10 +147,15 @@ theorem WF.delLink {g : Graph} (h : WF g) (p : Nat) (n : String) : WF (g.delLink
   h.transfer (keys_delLink g p n) rfl (Nat.le_refl _) (fun k => links_delLink_sublist g p k n)
     (fun _ => getAttr_delLink ..) (fun _ => getAttr_delLink ..) (fun _ => getAttr_delLink ..)
 
-/-- `delete_all` -/
+/-- `delete_all` by id (the code before the repair; unused by the model) -/
 theorem WF.deleteAll {g : Graph} (h : WF g) (ids : List String) : WF (g.deleteAll ids) :=
   h.transfer (keys_deleteAll g ids) rfl (Nat.le_refl _) (links_deleteAll_sublist g ids)
     (fun _ => getAttr_deleteAll ..) (fun _ => getAttr_deleteAll ..) (fun _ => getAttr_deleteAll ..)
+
+/-- `delete_all` by object (the repaired code) -/
+theorem WF.deleteObjs {g : Graph} (h : WF g) (ks : List Nat) : WF (g.deleteObjs ks) :=
+  h.transfer (keys_deleteObjs g ks) rfl (Nat.le_refl _) (links_deleteObjs_sublist g ks)
+    (fun _ => getAttr_deleteObjs ..) (fun _ => getAttr_deleteObjs ..) (fun _ => getAttr_deleteObjs ..)
 
 /-- drawing an id -/
 theorem WF.freshId {g : Graph} (h : WF g) : WF (g.freshId).1 :=
